@@ -439,8 +439,8 @@ Proof.
     rewrite upd_ds_monitoring by exact Hb.
     destruct (mon_alarm_iff (m_mon p s) (score_of p s x) (inv_mon_ds s I Hd) (inv_mon_since s I)) as (A1 & _).
     fold (mon_of p s x) in A1.
-    destruct (scheduled p (m_total p s + 1)); simpl.
-    + destruct (ds (mon_of p s x)) eqn:Em; simpl.
+    destruct (scheduled p (m_total p s + 1)); [rewrite andb_true_l | rewrite andb_false_l].
+    + destruct (ds (mon_of p s x)) eqn:Em; cbn [negb is_none].
       * rewrite Hd. split; [discriminate|]. intros (_ & _ & T). exfalso. apply A1 in T. congruence.
       * split; [|reflexivity]. intros _. repeat split. apply A1. discriminate.
       * split; [|reflexivity]. intros _. repeat split. apply A1. discriminate.
@@ -453,8 +453,8 @@ Lemma drift_is_monitor_state b s x : Inv s -> m_building p s = false ->
 Proof.
   intros I Hb. destruct (inv_monitoring s I Hb) as (Hd & _).
   rewrite upd_ds_monitoring by exact Hb.
-  destruct (scheduled p (m_total p s + 1)); simpl.
-  - destruct (ds (mon_of p s x)); simpl; rewrite ?Hd; split; try discriminate; try (intros [_ H]; congruence);
+  destruct (scheduled p (m_total p s + 1)); [rewrite andb_true_l | rewrite andb_false_l].
+  - destruct (ds (mon_of p s x)); cbn [negb is_none]; rewrite ?Hd; split; try discriminate; try (intros [_ H]; congruence);
       intros _; split; congruence.
   - rewrite Hd. split; [discriminate | intros [H _]; discriminate].
 Qed.
@@ -521,7 +521,7 @@ Proof.
   { unfold pc_update. rewrite Hb. rewrite build_noop; [apply fill_building|].
     destruct (fill_after_drift p b s Hne) as (_ & -> & _). rewrite lenZ_nil. lia. }
   simpl. apply (silent_run b xs (upd b s x)); [|exact Hb'|].
-  - split; [exact Hd'|]. left. rewrite Hr, Ht, lenZ_nil. repeat split; try lia.
+  - split; [exact Hd'|]. left. rewrite Hr, Ht, lenZ_nil. repeat split; try lia; try assumption.
   - unfold filled. rewrite Hr, Ht, lenZ_nil. lia.
 Qed.
 
@@ -651,12 +651,536 @@ Proof.
   assert (Hlt : forall j, In j (m_ref p s) \/ In j (m_test p s) -> j < m_total p s).
   { apply (idx_bound_reach b xs (pc_init p)). simpl. intros j [[]|[]]. }
   pose proof (test_window_recent b xs (or_intror Hd)) as Hrec. fold s in Hrec.
-  repeat split; try assumption.
-  - rewrite Hr. exact Hrec.
-  - apply absent_run.
-    + apply idx_bound_step. exact Hlt.
-    + unfold absent. rewrite Htot, Hr, Ht. split; [lia|]. split; [|intros []].
-      intros H. specialize (Hlt (m_total p s)). intuition lia.
+  split; [exact Hr|]. split; [rewrite Hr; exact Hrec|]. split; [exact Ht|].
+  apply absent_run.
+  - apply idx_bound_step. exact Hlt.
+  - unfold absent. rewrite Htot, Hr, Ht. split; [lia|]. split; [|intros []].
+    intros H. specialize (Hlt (m_total p s)). intuition lia.
 Qed.
 
 End Reach.
+
+(** =============================== 3. histograms: structural facts =============================== *)
+Section Hist.
+Context {N : Num}.
+Variable p : @pc_params N.
+Notation st11 := (pc_st p).
+Notation upd := (pc_update p).
+Implicit Types s : st11.
+Implicit Types x : @pc_input N.
+Local Open Scope num_scope.
+
+(** the bin edges depend on the number of bins and on the support only, not on the sample *)
+Lemma build_hist_edges (xs : list (F N)) k lo hi : fst (build_hist xs k lo hi) = hist_edges k lo hi.
+Proof. reflexivity. Qed.
+
+Definition own_edges (npcs : Z) (lower upper : list (F N)) : list (list (F N)) :=
+  map (fun i => hist_edges (pc_bins p) (nthF i lower) (nthF i upper)) (pcs_of npcs).
+
+Lemma hists_edges npcs proj lower upper : map fst (hists p npcs proj lower upper) = own_edges npcs lower upper.
+Proof. unfold hists, own_edges. rewrite map_map. apply map_ext. intros i. reflexivity. Qed.
+
+Lemma hists_length npcs proj lower upper : length (hists p npcs proj lower upper) = Z.to_nat npcs.
+Proof. unfold hists, pcs_of. rewrite map_length. apply upto_length. Qed.
+
+Lemma supports_length npcs (r t : list (list (F N))) :
+  length (supports_lower npcs r t) = Z.to_nat npcs /\ length (supports_upper npcs r t) = Z.to_nat npcs.
+Proof. unfold supports_lower, supports_upper, pcs_of. rewrite !map_length, upto_length. split; reflexivity. Qed.
+
+(** the reference histograms are, at all times, those of the stored reference projection on the stored supports *)
+Definition RefH s : Prop :=
+  pc_inter p = true -> m_dref p s = hists p (npcs_of p s) (m_rproj p s) (m_lower p s) (m_upper p s).
+
+Lemma RefH_init : RefH (pc_init p).
+Proof. intros _. reflexivity. Qed.
+
+Lemma RefH_step b s x : RefH s -> RefH (upd b s x).
+Proof.
+  intros H Hi. specialize (H Hi). unfold pc_update. destruct (m_building p s) eqn:Hb.
+  - destruct (fill_frame p b s) as (F1 & F2 & _ & F4 & F5 & F6 & _).
+    set (s1 := fill_phase p b s) in *.
+    destruct (Z.eq_dec (lenZ (m_test p s1)) (pc_w p)) as [E|E].
+    + destruct (build_installs p b s1 x E) as (_ & Hn & Hr & _ & Hint & _).
+      destruct (Hint Hi) as (_ & _ & Hd). unfold npcs_of. rewrite Hn, Hr. exact Hd.
+    + rewrite build_noop by exact E. unfold npcs_of. rewrite F1, F2, F4, F5, F6. exact H.
+  - destruct (scheduled p (m_total p s + 1)) eqn:Es.
+    + rewrite monitor_scheduled by exact Es. exact H.
+    + rewrite monitor_unscheduled by exact Es. exact H.
+Qed.
+
+Lemma RefH_reach b xs : RefH (pc_run p b (pc_init p) xs).
+Proof.
+  assert (G : forall xs s, RefH s -> RefH (pc_run p b s xs)).
+  { induction xs0 as [|x xs0 IH]; intros s H; [exact H|]. simpl. apply IH. apply RefH_step. exact H. }
+  apply G. apply RefH_init.
+Qed.
+
+(** at a scheduled sample of the monitoring phase, "intersection" metric: every component's test histogram is
+    built on that component's own support, which is the support of its reference histogram *)
+Lemma same_edges_step b s x : RefH s -> pc_inter p = true -> m_building p s = false ->
+  scheduled p (m_total p s + 1) = true ->
+  let s' := upd b s x in
+  m_dtest p s' = hists p (npcs_of p s) (m_tproj p s') (m_lower p s) (m_upper p s) /\
+  m_lower p s' = m_lower p s /\ m_upper p s' = m_upper p s /\ m_dref p s' = m_dref p s /\
+  map fst (m_dtest p s') = own_edges (npcs_of p s) (m_lower p s) (m_upper p s) /\
+  map fst (m_dref p s') = own_edges (npcs_of p s) (m_lower p s) (m_upper p s).
+Proof.
+  intros H Hi Hb Es. cbv zeta. unfold pc_update. rewrite Hb. rewrite monitor_scheduled by exact Es. cbn [m_dtest m_lower m_upper m_dref m_tproj].
+  unfold comp_scores. rewrite Hi. cbn [snd]. repeat split.
+  - apply hists_edges.
+  - rewrite (H Hi). apply hists_edges.
+Qed.
+
+(** the per-component scores of that computation: intersection divergence of the two histograms *)
+Lemma comp_scores_inter s tproj x : pc_inter p = true ->
+  fst (comp_scores p s tproj x) =
+  map (fun i => inter_div (snd (nth (Z.to_nat i) (m_dref p s) ([], [])))
+                          (snd (nth (Z.to_nat i) (hists p (npcs_of p s) tproj (m_lower p s) (m_upper p s)) ([], []))))
+      (pcs_of (npcs_of p s)).
+Proof. intros Hi. unfold comp_scores. rewrite Hi. reflexivity. Qed.
+
+Lemma comp_scores_kl s tproj x : pc_inter p = false -> fst (comp_scores p s tproj x) = i_scores x.
+Proof. intros Hi. unfold comp_scores. rewrite Hi. reflexivity. Qed.
+
+(** winsorising: every new projection enters the test projection clipped to the component's own support *)
+Lemma clip_cases (v lo hi : F N) : clip v lo hi = v \/ clip v lo hi = lo \/ clip v lo hi = hi.
+Proof. unfold clip. destruct (v <? lo); [auto|]. destruct (hi <? v); auto. Qed.
+
+Lemma clip_in_support (L : OrdLaws N) (v lo hi : F N) : fleb lo hi = true ->
+  fleb lo (clip v lo hi) = true /\ fleb (clip v lo hi) hi = true.
+Proof.
+  intros H. unfold clip. rewrite !(ltb_leb N L).
+  destruct (fleb lo v) eqn:E1; simpl.
+  - destruct (fleb v hi) eqn:E2; simpl.
+    + split; assumption.
+    + split; [exact H | apply (leb_refl N L)].
+  - split; [apply (leb_refl N L) | exact H].
+Qed.
+
+Lemma winsorize_inter s next : pc_inter p = true ->
+  winsorize p s next =
+  map (fun i => clip (nthF i next) (nthF i (m_lower p s)) (nthF i (m_upper p s))) (pcs_of (npcs_of p s)).
+Proof. intros Hi. unfold winsorize. rewrite Hi. reflexivity. Qed.
+
+(** ---- the histogram of a sample does not depend on the order of the sample ---- *)
+Lemma count_in_perm (xs ys : list (F N)) b : Permutation xs ys -> count_in xs b = count_in ys b.
+Proof.
+  intros P. unfold count_in, lenZ. f_equal.
+  induction P as [|a l l' P IH|a a' l|l l' l'' P1 IH1 P2 IH2]; simpl.
+  - reflexivity.
+  - destruct (in_bin a b); simpl; rewrite IH; reflexivity.
+  - destruct (in_bin a b), (in_bin a' b); reflexivity.
+  - rewrite IH1. exact IH2.
+Qed.
+
+Lemma hist_density_perm (xs ys es : list (F N)) : Permutation xs ys -> hist_density xs es = hist_density ys es.
+Proof.
+  intros P. unfold hist_density.
+  rewrite (map_ext (count_in xs) (count_in ys)) by (intros b; apply count_in_perm; exact P).
+  apply map_ext. intros b. rewrite (count_in_perm xs ys b P). reflexivity.
+Qed.
+
+Lemma build_hist_perm (xs ys : list (F N)) k lo hi : Permutation xs ys -> build_hist xs k lo hi = build_hist ys k lo hi.
+Proof. intros P. unfold build_hist. rewrite (hist_density_perm xs ys _ P). reflexivity. Qed.
+
+(** ---- intersection divergence of a histogram with itself: 1 - its sum (every arithmetic instance) ---- *)
+Lemma np_minimum_self (a : F N) : np_minimum a a = a.
+Proof. unfold np_minimum. destruct (a <? a); reflexivity. Qed.
+
+Lemma inter_div_self (d : list (F N)) : inter_div d d = f1 - np_sum d.
+Proof.
+  unfold inter_div. f_equal. f_equal.
+  induction d as [|a d IH]; simpl; [reflexivity|]. rewrite np_minimum_self, IH. reflexivity.
+Qed.
+
+(** ... hence: if every component's test scores are a permutation of its reference scores, every component
+    score is 1 - sum(normalised reference histogram) *)
+Lemma scores_equal_windows s tproj x : RefH s -> pc_inter p = true ->
+  (forall i, In i (pcs_of (npcs_of p s)) -> Permutation (col i tproj) (col i (m_rproj p s))) ->
+  fst (comp_scores p s tproj x) =
+  map (fun i => f1 - np_sum (snd (nth (Z.to_nat i) (m_dref p s) ([], [])))) (pcs_of (npcs_of p s)).
+Proof.
+  intros H Hi HP. rewrite comp_scores_inter by exact Hi.
+  assert (E : hists p (npcs_of p s) tproj (m_lower p s) (m_upper p s) = m_dref p s).
+  { rewrite (H Hi). unfold hists. apply map_ext_in. intros i Hin. apply build_hist_perm. apply HP. exact Hin. }
+  rewrite E. apply map_ext. intros i. apply inter_div_self.
+Qed.
+
+End Hist.
+
+(** =============================== the machine does not depend on online_scaling =============================== *)
+Section Scaling.
+Context {N : Num}.
+Variable p : @pc_params N.
+Implicit Types s : pc_st p.
+
+Definition drop_scaler (c : list (Z * Z)) : list (Z * Z) := filter (fun c => negb (scaler_call c)) c.
+
+Lemma drop_scaler_app a b : drop_scaler (a ++ b) = drop_scaler a ++ drop_scaler b.
+Proof. apply filter_app. Qed.
+
+Lemma drop_scaler_const {A} (k n : Z) (l : list A) : 3 < k -> drop_scaler (map (fun _ => (k, n)) l) = map (fun _ => (k, n)) l.
+Proof.
+  intros H. induction l as [|a l IH]; [reflexivity|]. simpl. unfold scaler_call at 1. simpl.
+  destruct (Z.leb_spec k 3); [lia|]. simpl. f_equal. exact IH.
+Qed.
+
+Lemma set_calls_calls s c : m_calls p (set_calls p s c) = c.
+Proof. reflexivity. Qed.
+
+(** without online_scaling the update is the same function, minus the StandardScaler calls *)
+Lemma scaling_irrelevant_step s x :
+  pc_update p false s x =
+  set_calls p (pc_update p true s x) (drop_scaler (m_calls p (pc_update p true s x))).
+Proof.
+  unfold pc_update. destruct (m_building p s).
+  - assert (F : fill_phase p false s = set_calls p (fill_phase p true s) (drop_scaler (m_calls p (fill_phase p true s)))).
+    { unfold fill_phase.
+      repeat match goal with |- context [if ?c then _ else _] => destruct c end; reflexivity. }
+    rewrite F. set (s1 := fill_phase p true s). unfold build_phase.
+    cbn [set_calls m_test m_total m_since m_ds m_ref m_lower m_upper m_dref m_dtest m_mon m_scores m_comp m_calls].
+    destruct (lenZ (m_test p s1) =? pc_w p); [|reflexivity].
+    unfold set_calls. cbn [m_total m_since m_ds m_building m_ref m_test m_npcs m_rproj m_tproj m_lower m_upper m_dref m_dtest m_mon m_scores m_comp m_calls].
+    f_equal. destruct (pc_inter p); rewrite !drop_scaler_app.
+    all: replace (drop_scaler [(C_FIT_SCALE, pc_w p); (C_SCALE, pc_w p)]) with (@nil (Z * Z)) by reflexivity.
+    all: replace (drop_scaler [(C_PCA_FIT, pc_w p); (C_PCA_TR, pc_w p); (C_PCA_TR, pc_w p)])
+      with [(C_PCA_FIT, pc_w p); (C_PCA_TR, pc_w p); (C_PCA_TR, pc_w p)] by reflexivity.
+    + reflexivity.
+    + rewrite drop_scaler_const by (unfold C_KDE; lia). reflexivity.
+  - unfold monitor_phase. destruct (scheduled p (m_total p s + 1)).
+    + destruct (comp_scores p s _ x) as [comp dtest]. unfold set_calls.
+      cbn [m_total m_since m_ds m_building m_ref m_test m_npcs m_rproj m_tproj m_lower m_upper m_dref m_dtest m_mon m_scores m_comp m_calls].
+      f_equal. destruct (pc_inter p); rewrite !drop_scaler_app; [reflexivity|].
+      rewrite !drop_scaler_const by (unfold C_KDE, C_JS; lia). reflexivity.
+    + reflexivity.
+Qed.
+
+(** the calls of the previous update are never read *)
+Lemma calls_not_read b s c x : pc_update p b (set_calls p s c) x = pc_update p b s x.
+Proof.
+  unfold pc_update. cbn [set_calls m_building]. destruct (m_building p s); reflexivity.
+Qed.
+
+Lemma scaling_irrelevant_run : forall xs s,
+  set_calls p (pc_run p false s xs) [] = set_calls p (pc_run p true s xs) [].
+Proof.
+  assert (G : forall xs s1 s2, set_calls p s1 [] = set_calls p s2 [] ->
+              set_calls p (pc_run p false s1 xs) [] = set_calls p (pc_run p true s2 xs) []).
+  { induction xs as [|x xs IH]; intros s1 s2 H; [exact H|]. simpl. apply IH.
+    rewrite <- (calls_not_read false s1 [] x), H, calls_not_read, scaling_irrelevant_step. reflexivity. }
+  intros xs s. apply G. reflexivity.
+Qed.
+
+End Scaling.
+
+(** =============================== 4. exact arithmetic (the reals) =============================== *)
+From MV Require Import NumLaws.
+From Coq Require Import Reals Lra.
+
+Section Exact.
+Local Open Scope R_scope.
+Notation NR := NumR.
+
+Definition rsum (l : list R) : R := fold_right Rplus 0 l.
+
+Lemma rsum_app l1 l2 : rsum (l1 ++ l2) = rsum l1 + rsum l2.
+Proof. induction l1 as [|a l1 IH]; simpl; [lra|]. rewrite IH. lra. Qed.
+
+(** numpy's pairwise summation is the sum *)
+Lemma sum_seq_R : forall l init, @sum_seq NR init l = init + rsum l.
+Proof.
+  induction l as [|a l IH]; intros init; unfold sum_seq in *; simpl; [lra|]. rewrite IH. lra.
+Qed.
+
+Lemma rsum_add_combine : forall a b : list R, length a = length b ->
+  rsum (map (fun q => @fadd NR (fst q) (snd q)) (combine a b)) = rsum a + rsum b.
+Proof.
+  induction a as [|x a IH]; intros [|y b] H; simpl in *; try discriminate; [lra|].
+  rewrite IH by congruence. lra.
+Qed.
+
+Lemma block_loop_R : forall fuel (r l : list R), length r = 8%nat ->
+  length (fst (@block_loop NR fuel r l)) = 8%nat /\
+  rsum (fst (@block_loop NR fuel r l)) + rsum (snd (@block_loop NR fuel r l)) = rsum r + rsum l.
+Proof.
+  induction fuel as [|fuel IH]; intros r l Hr; cbn [block_loop].
+  - split; [exact Hr | reflexivity].
+  - destruct (Nat.leb 8 (@length (F NR) l)) eqn:E; [|split; [exact Hr | reflexivity]].
+    apply Nat.leb_le in E. change (F NR) with R in *.
+    assert (Hf : length (firstn 8 l) = 8%nat) by (rewrite firstn_length; lia).
+    destruct (IH (map (fun q => @fadd NR (fst q) (snd q)) (combine r (firstn 8 l))) (skipn 8 l)) as [H1 H2].
+    { rewrite map_length, combine_length, Hr, Hf. reflexivity. }
+    split; [exact H1|]. etransitivity; [exact H2|]. rewrite rsum_add_combine by congruence.
+    rewrite <- (firstn_skipn 8 l) at 3. rewrite rsum_app. lra.
+Qed.
+
+Lemma block8_R (l : list R) : (8 <= length l)%nat -> @block8 NR l = rsum l.
+Proof.
+  intros H. unfold block8.
+  assert (Hf : length (firstn 8 l) = 8%nat) by (rewrite firstn_length; lia).
+  set (bl := block_loop _ _ _).
+  assert (H12 : length (fst bl) = 8%nat /\ rsum (fst bl) + rsum (snd bl) = rsum (firstn 8 l) + rsum (skipn 8 l))
+    by (apply block_loop_R; exact Hf).
+  destruct bl as [r tl]. cbn [fst snd] in H12. destruct H12 as [H1 H2].
+  do 8 (destruct r as [|? r]; [discriminate|]). destruct r; [|discriminate].
+  rewrite sum_seq_R. rewrite <- (firstn_skipn 8 l) at 1. rewrite rsum_app, <- H2. simpl. lra.
+Qed.
+
+Lemma pw_sum_R : forall fuel (l : list R), (length l <= fuel)%nat -> @pw_sum NR fuel l = rsum l.
+Proof.
+  induction fuel as [|fuel IH]; intros l H.
+  - destruct l; [|simpl in H; lia]. unfold pw_sum. simpl. reflexivity.
+  - cbn [pw_sum]. cbv zeta. destruct (Nat.ltb (@length (F NR) l) 8) eqn:E1.
+    + rewrite sum_seq_R. simpl. lra.
+    + apply Nat.ltb_ge in E1. destruct (Nat.leb (@length (F NR) l) 128) eqn:E2.
+      * apply block8_R. exact E1.
+      * apply Nat.leb_gt in E2. change (F NR) with R in *.
+        set (n2 := (length l / 2 - (length l / 2) mod 8)%nat).
+        assert (Hn2 : (1 <= n2 < length l)%nat).
+        { unfold n2. pose proof (Nat.mod_upper_bound (length l / 2) 8).
+          assert (64 <= length l / 2)%nat by (apply Nat.div_le_lower_bound; lia).
+          assert (length l / 2 < length l)%nat by (apply Nat.div_lt; lia). lia. }
+        rewrite !IH.
+        -- simpl. rewrite <- rsum_app, firstn_skipn. reflexivity.
+        -- rewrite skipn_length. lia.
+        -- rewrite firstn_length. lia.
+Qed.
+
+Lemma np_sum_R (l : list R) : @np_sum NR l = rsum l.
+Proof. unfold np_sum. apply pw_sum_R. apply le_n. Qed.
+
+(** ---- intersection divergence of two probability vectors ---- *)
+Lemma np_minimum_R (a b : R) : @np_minimum NR a b = Rmin a b.
+Proof.
+  unfold np_minimum. simpl. unfold Rmin. destruct (Rlt_dec a b), (Rle_dec a b); try reflexivity; lra.
+Qed.
+
+Lemma rsum_min_bounds : forall d1 d2 : list R, (forall v, In v d1 -> 0 <= v) -> (forall v, In v d2 -> 0 <= v) ->
+  0 <= rsum (map (fun q => @np_minimum NR (fst q) (snd q)) (combine d1 d2)) <= rsum d1.
+Proof.
+  induction d1 as [|a d1 IH]; intros d2 H1 H2; simpl; [lra|].
+  destruct d2 as [|b d2]; simpl.
+  - assert (0 <= a) by (apply H1; left; reflexivity).
+    assert (0 <= rsum d1).
+    { clear IH. induction d1 as [|c d1 IHd]; simpl; [lra|].
+      assert (0 <= c) by (apply H1; right; left; reflexivity).
+      assert (0 <= rsum d1) by (apply IHd; intros v Hv; apply H1; simpl in *; tauto). lra. }
+    lra.
+  - rewrite np_minimum_R.
+    assert (0 <= a) by (apply H1; left; reflexivity).
+    assert (0 <= b) by (apply H2; left; reflexivity).
+    destruct (IH d2) as [L U]; [intros v Hv; apply H1; right; exact Hv | intros v Hv; apply H2; right; exact Hv |].
+    pose proof (Rmin_l a b). assert (0 <= Rmin a b) by (apply Rmin_glb; assumption).
+    change (F NR) with R in *. lra.
+Qed.
+
+Lemma inter_div_unit (d1 d2 : list R) : (forall v, In v d1 -> 0 <= v) -> (forall v, In v d2 -> 0 <= v) -> rsum d1 = 1 ->
+  0 <= @inter_div NR d1 d2 <= 1.
+Proof.
+  intros H1 H2 S. unfold inter_div. rewrite np_sum_R. simpl. destruct (rsum_min_bounds d1 d2 H1 H2). change (F NR) with R in *. lra.
+Qed.
+
+Lemma inter_div_equal (d : list R) : rsum d = 1 -> @inter_div NR d d = 0.
+Proof. intros S. rewrite inter_div_self, np_sum_R. simpl. lra. Qed.
+
+(** ---- np.histogram on an interval [a, b], a < b, with k >= 1 equal bins ---- *)
+Lemma linspace_R (a b : R) (k : Z) : a < b -> (1 <= k)%Z ->
+  @linspace NR a b k =
+  map (fun i => IZR (Z.of_nat i) * ((b - a) / IZR k) + a) (seq 0 (Z.to_nat k)) ++ [b].
+Proof.
+  intros Hab Hk. unfold linspace, upto. rewrite map_map. f_equal. apply map_ext. intros i. simpl.
+  destruct (Req_EM_T ((b - a) / IZR k) 0) as [E|E]; [|reflexivity].
+  exfalso. assert (0 < IZR k) by (apply IZR_lt; lia).
+  assert (0 < (b - a) / IZR k) by (apply Rdiv_lt_0_compat; lra). lra.
+Qed.
+
+Lemma bins_of_widths (g : nat -> R) (b step : R) : forall n m, (1 <= n)%nat ->
+  (forall i, g (S i) - g i = step) -> b - g (m + n - 1)%nat = step ->
+  forall bin, In bin (@bins_of NR (map g (seq m n) ++ [b])) -> snd (fst bin) - fst (fst bin) = step.
+Proof.
+  induction n as [|n IH]; intros m Hn Hg Hb bin Hin; [lia|].
+  destruct n as [|n].
+  - simpl in Hin. destruct Hin as [<-|[]]. simpl. replace (m + 1 - 1)%nat with m in Hb by lia. exact Hb.
+  - change (map g (seq m (S (S n))) ++ [b]) with (g m :: g (S m) :: (map g (seq (S (S m)) n) ++ [b])) in Hin.
+    cbn [bins_of] in Hin. destruct Hin as [<-|Hin].
+    + simpl. apply Hg.
+    + apply (IH (S m)); try assumption; try lia.
+      replace (S m + S n - 1)%nat with (m + S (S n) - 1)%nat by lia. exact Hb.
+Qed.
+
+Lemma bin_exists : forall (es : list R) (x : R), (2 <= length es)%nat -> hd 0 es <= x <= last es 0 ->
+  exists bin, In bin (@bins_of NR es) /\ @in_bin NR x bin = true.
+Proof.
+  induction es as [|e0 es IH]; intros x Hl Hx; [simpl in Hl; lia|].
+  destruct es as [|e1 t]; [simpl in Hl; lia|].
+  destruct t as [|e2 t].
+  - exists (e0, e1, true). split; [left; reflexivity|]. simpl in *.
+    destruct (Rle_dec e0 x), (Rle_dec x e1); try reflexivity; lra.
+  - destruct (Rlt_dec x e1) as [L|G].
+    + exists (e0, e1, false). split; [left; reflexivity|]. simpl in *.
+      destruct (Rle_dec e0 x), (Rlt_dec x e1); try reflexivity; lra.
+    + destruct (IH x) as (bin & Hin & Hb); [simpl; lia | |].
+      * split; [simpl; lra|]. simpl in *. lra.
+      * exists bin. split; [|exact Hb]. cbn [bins_of]. right. exact Hin.
+Qed.
+
+Lemma count_in_nonneg (xs : list R) bin : (0 <= @count_in NR xs bin)%Z.
+Proof. unfold count_in. apply lenZ_nonneg. Qed.
+
+Lemma count_in_pos (xs : list R) bin x0 : In x0 xs -> @in_bin NR x0 bin = true -> (1 <= @count_in NR xs bin)%Z.
+Proof.
+  intros Hin Hb. unfold count_in, lenZ.
+  assert (H : In x0 (filter (fun x => @in_bin NR x bin) xs)) by (apply filter_In; split; assumption).
+  destruct (filter (fun x : F NR => @in_bin NR x bin) xs); [destruct H | simpl; lia].
+Qed.
+
+Lemma fold_add_Z : forall l a, (fold_left Z.add l a = a + sumZ l)%Z.
+Proof.
+  unfold sumZ. induction l as [|z l IH]; intros a; simpl; [lia|]. rewrite IH, (IH z). lia.
+Qed.
+
+Lemma sumZ_cons z l : (sumZ (z :: l) = z + sumZ l)%Z.
+Proof. unfold sumZ at 1. simpl. rewrite fold_add_Z. lia. Qed.
+
+Lemma sumZ_ge : forall (l : list Z) z, In z l -> (forall y, In y l -> 0 <= y)%Z -> (z <= sumZ l)%Z.
+Proof.
+  induction l as [|y l IH]; intros z Hin Hnn; [destruct Hin|].
+  rewrite sumZ_cons.
+  assert (0 <= sumZ l)%Z.
+  { clear IH Hin. induction l as [|v l IHl]; [unfold sumZ; simpl; lia|]. rewrite sumZ_cons.
+    assert (0 <= v)%Z by (apply Hnn; right; left; reflexivity).
+    assert (0 <= sumZ l)%Z by (apply IHl; intros u Hu; apply Hnn; simpl in *; tauto). lia. }
+  destruct Hin as [->|Hin].
+  - lia.
+  - assert (z <= sumZ l)%Z by (apply IH; [exact Hin | intros u Hu; apply Hnn; right; exact Hu]).
+    assert (0 <= y)%Z by (apply Hnn; left; reflexivity). lia.
+Qed.
+
+Lemma rsum_scaled (c : R * R * bool -> Z) (step T : R) : forall bs,
+  rsum (map (fun bin => IZR (c bin) / step / T) bs) = IZR (sumZ (map c bs)) / step / T.
+Proof.
+  induction bs as [|bin bs IH]; simpl.
+  - unfold sumZ. simpl. unfold Rdiv. lra.
+  - rewrite IH, sumZ_cons, plus_IZR. unfold Rdiv. lra.
+Qed.
+
+(** the interval actually used: [lo, hi] itself, or widened by 1/2 when empty *)
+Lemma outer_edges_R (lo hi : R) : lo <= hi ->
+  let ab := @outer_edges NR lo hi in fst ab < snd ab /\ fst ab <= lo /\ hi <= snd ab.
+Proof.
+  intros H. unfold outer_edges, half. simpl. destruct (Req_EM_T lo hi); simpl; lra.
+Qed.
+
+(** the normalised histogram is the vector of sample fractions per bin: non-negative, summing to one *)
+Theorem build_hist_fractions (xs : list R) (k : Z) (lo hi : R) : (1 <= k)%Z -> lo <= hi ->
+  (exists x0, In x0 xs /\ lo <= x0 <= hi) ->
+  let es := @hist_edges NR k lo hi in
+  let tot := sumZ (map (@count_in NR xs) (@bins_of NR es)) in
+  (1 <= tot)%Z /\
+  snd (@build_hist NR xs k lo hi) = map (fun bin => IZR (@count_in NR xs bin) / IZR tot) (@bins_of NR es) /\
+  (forall v, In v (snd (@build_hist NR xs k lo hi)) -> 0 <= v) /\
+  rsum (snd (@build_hist NR xs k lo hi)) = 1.
+Proof.
+  intros Hk Hle (x0 & Hx0 & Hr). cbv zeta.
+  unfold build_hist, hist_edges. cbn [snd].
+  destruct (outer_edges_R lo hi Hle) as (Hab & Ha & Hb).
+  destruct (@outer_edges NR lo hi) as [a b]. cbn [fst snd] in Hab, Ha, Hb.
+  set (es := @linspace NR a b k).
+  set (step := (b - a) / IZR k).
+  assert (Hkpos : 0 < IZR k) by (apply IZR_lt; lia).
+  assert (Hstep : 0 < step) by (apply Rdiv_lt_0_compat; lra).
+  assert (Hes : es = map (fun i => IZR (Z.of_nat i) * step + a) (seq 0 (Z.to_nat k)) ++ [b])
+    by (apply linspace_R; assumption).
+  set (K := Z.to_nat k) in *.
+  assert (HK : (1 <= K)%nat) by (unfold K; lia).
+  (* all bins have width step *)
+  assert (Hwid : forall bin, In bin (@bins_of NR es) -> snd (fst bin) - fst (fst bin) = step).
+  { rewrite Hes. apply bins_of_widths; [exact HK | |].
+    - intros i. rewrite Nat2Z.inj_succ, succ_IZR. lra.
+    - replace (0 + K - 1)%nat with (K - 1)%nat by lia.
+      rewrite Nat2Z.inj_sub by lia. unfold K. rewrite Z2Nat.id by lia.
+      rewrite minus_IZR. simpl (IZR (Z.of_nat 1)). unfold step. field. lra. }
+  (* some bin contains x0 *)
+  destruct (bin_exists es x0) as (bin0 & Hin0 & Hb0).
+  { rewrite Hes, app_length, map_length, seq_length. simpl. lia. }
+  { rewrite Hes. rewrite last_last. destruct K as [|K']; [lia|]. simpl. lra. }
+  set (bs := @bins_of NR es) in *.
+  set (tot := sumZ (map (@count_in NR xs) bs)).
+  change (F NR) with R in *.
+  assert (Htot : (1 <= tot)%Z).
+  { pose proof (count_in_pos xs bin0 x0 Hx0 Hb0).
+    assert (@count_in NR xs bin0 <= tot)%Z; [|lia].
+    apply sumZ_ge; [apply in_map; exact Hin0|].
+    intros y Hy. apply in_map_iff in Hy as (bb & <- & _). apply count_in_nonneg. }
+  assert (HT : 0 < IZR tot) by (apply IZR_lt; lia).
+  (* raw densities and their mass *)
+  assert (Hd : @hist_density NR xs es = map (fun bin => IZR (@count_in NR xs bin) / step / IZR tot) bs).
+  { unfold hist_density. fold bs. fold tot. apply map_ext_in. intros bin Hin. simpl. f_equal. f_equal. exact (Hwid bin Hin). }
+  assert (Hmass : rsum (@hist_density NR xs es) = 1 / step).
+  { rewrite Hd, rsum_scaled. change (F NR) with R in *. fold tot. field. split; apply Rgt_not_eq; first [exact HT | exact Hstep]. }
+  assert (Hnorm : @normalize NR (@hist_density NR xs es) = map (fun bin => IZR (@count_in NR xs bin) / IZR tot) bs).
+  { unfold normalize. rewrite np_sum_R, Hmass, Hd, map_map. apply map_ext. intros bin. simpl. field. lra. }
+  split; [exact Htot|]. split; [exact Hnorm|]. rewrite Hnorm. split.
+  - intros v Hv. apply in_map_iff in Hv as (bin & <- & _).
+    apply Rmult_le_pos; [apply IZR_le, count_in_nonneg | left; apply Rinv_0_lt_compat; exact HT].
+  - assert (G : forall l, rsum (map (fun bin => IZR (@count_in NR xs bin) / IZR tot) l) = IZR (sumZ (map (@count_in NR xs) l)) / IZR tot).
+    { induction l as [|bb l IHl]; simpl; [unfold sumZ; simpl; unfold Rdiv; lra|].
+      change (F NR) with R in *. rewrite IHl, sumZ_cons, plus_IZR. unfold Rdiv. lra. }
+    rewrite G. change (IZR tot / IZR tot = 1). field. lra.
+Qed.
+
+
+(** ---- the per-component support contains every projected score of both windows (so the hypotheses of
+        [build_hist_fractions] hold for the histograms the detector builds) ---- *)
+Lemma nthF_map_upto (f : Z -> R) (n i : Z) : (0 <= i < n)%Z -> @nthF NR i (map f (upto n)) = f i.
+Proof.
+  intros H. unfold nthF, upto. rewrite map_map.
+  rewrite (nth_indep _ (@f0 NR) (f (Z.of_nat 0))) by (rewrite map_length, seq_length; lia).
+  rewrite (map_nth (fun k => f (Z.of_nat k))), seq_nth by lia. f_equal. lia.
+Qed.
+
+Lemma fold_min_R : forall (t : list R) (m : R),
+  let r := fold_left (fun m y : R => if @fltb NR y m then y else m) t m in r <= m /\ forall y, In y t -> r <= y.
+Proof.
+  induction t as [|a t IH]; intros m; simpl.
+  - split; [lra | intros y []].
+  - simpl in IH. destruct (Rlt_dec a m) as [L|G].
+    + destruct (IH a) as [I1 I2]. split; [lra|]. intros y [<-|Hy]; [exact I1 | apply I2; exact Hy].
+    + destruct (IH m) as [I1 I2]. split; [exact I1|]. intros y [<-|Hy]; [lra | apply I2; exact Hy].
+Qed.
+
+Lemma fold_max_R : forall (t : list R) (m : R),
+  let r := fold_left (fun m y : R => if @fltb NR m y then y else m) t m in m <= r /\ forall y, In y t -> y <= r.
+Proof.
+  induction t as [|a t IH]; intros m; simpl.
+  - split; [lra | intros y []].
+  - simpl in IH. destruct (Rlt_dec m a) as [L|G].
+    + destruct (IH a) as [I1 I2]. split; [lra|]. intros y [<-|Hy]; [exact I1 | apply I2; exact Hy].
+    + destruct (IH m) as [I1 I2]. split; [exact I1|]. intros y [<-|Hy]; [lra | apply I2; exact Hy].
+Qed.
+
+Lemma list_min_R (l : list R) y : In y l -> @list_min NR l <= y.
+Proof.
+  destruct l as [|a t]; [intros []|]. unfold list_min. destruct (fold_min_R t a) as [I1 I2].
+  intros [<-|H]; [exact I1 | apply I2; exact H].
+Qed.
+
+Lemma list_max_R (l : list R) y : In y l -> y <= @list_max NR l.
+Proof.
+  destruct l as [|a t]; [intros []|]. unfold list_max. destruct (fold_max_R t a) as [I1 I2].
+  intros [<-|H]; [exact I1 | apply I2; exact H].
+Qed.
+
+Lemma supports_contain (npcs i : Z) (r t : list (list R)) y : (0 <= i < npcs)%Z ->
+  In y (@col NR i r) \/ In y (@col NR i t) ->
+  @nthF NR i (@supports_lower NR npcs r t) <= y <= @nthF NR i (@supports_upper NR npcs r t).
+Proof.
+  intros Hi Hy. unfold supports_lower, supports_upper, pcs_of. rewrite !nthF_map_upto by exact Hi.
+  unfold pymin, pymax. simpl.
+  destruct (Rlt_dec (@list_min NR (@col NR i t)) (@list_min NR (@col NR i r))),
+           (Rlt_dec (@list_max NR (@col NR i r)) (@list_max NR (@col NR i t)));
+    destruct Hy as [Hy|Hy];
+    pose proof (list_min_R _ _ Hy); pose proof (list_max_R _ _ Hy); split; lra.
+Qed.
+
+End Exact.
